@@ -84,6 +84,13 @@ fn leaves() -> Vec<Expression> {
         TableExpression::default().append_array_value(num(1.0)).append_field("a", Expression::from(true)).into(),
         FunctionExpression::default().into(),
     ];
+    // non-finite values: as literal nodes (rules can build them) and as the divisions that produce them
+    v.push(num(f64::NAN));
+    v.push(num(f64::INFINITY));
+    v.push(num(f64::NEG_INFINITY));
+    v.push(BinaryExpression::new(BinaryOperator::Slash, num(0.0), num(0.0)).into());
+    v.push(BinaryExpression::new(BinaryOperator::Slash, num(1.0), num(0.0)).into());
+    v.push(BinaryExpression::new(BinaryOperator::Slash, num(-1.0), num(0.0)).into());
     // hex / binary literals
     v.push(Expression::from(HexNumber::new(255, false)));
     v.push(Expression::from(BinaryNumber::new(5, false)));
